@@ -132,7 +132,7 @@ func runC04(c *ev.Ctx) {
 		L = 6
 		depthMax = 100000
 	}
-	c.Rule(fmt.Sprintf("Space 1: every string of <= %d tokens over a 27-token byte alphabet (brackets, quote, colon, comma, backslash, literal letters, digits, SP, LF, and 9 ill-formed/odd UTF-8 byte groups) to ParseList and ParseObject, and every string of <= %d tokens behind each opener of %q; nesting sweeps up to depth %d. Space 2: every proper byte prefix of String() of every tree (<=5 nodes over 9 leaves; <=4 nodes over bracket/quote/backslash/non-ASCII strings as values and keys). Space 3: every ill-formed UTF-8 group of %d kinds inserted at every byte offset strictly between the root brackets of those documents. Space 4: ParseFile vs ParseObject on every Space-1 text of <= 3 tokens and every object document, every single byte 0x00-0xFF inserted at every offset of 3 object documents, line-ending rewrites (CRLF, CR, LF CR, CR CR LF, TAB), byte-order marks, files of 4095..1 MiB+1 bytes, plus the unreadable-path menu. Non-trivial = distinct input that reaches a parser state machine (contains the root bracket the entry point looks for) and is longer than 2 bytes.", L, L-1, c04Openers[1:], depthMax, len(c04Bad)))
+	c.Rule(fmt.Sprintf("Space 1: every string of <= %d tokens over a 27-token byte alphabet (brackets, quote, colon, comma, backslash, literal letters, digits, SP, LF, and 9 ill-formed/odd UTF-8 byte groups) to ParseList and ParseObject, and every string of <= %d tokens behind each opener of %q; nesting sweeps up to depth %d. Space 2: every proper byte prefix of String() of every tree (<=5 nodes over 9 leaves; <=4 nodes over bracket/quote/backslash/non-ASCII strings as values and keys; <=3 nodes over strings/keys holding characters whose code point ends in the byte of a structural character, U+0122 U+0422 U+4E22 U+1F622 ..., followed by real brackets). Space 3: every ill-formed UTF-8 group of %d kinds inserted at every byte offset strictly between the root brackets of those documents. Space 4: ParseFile vs ParseObject on every Space-1 text of <= 3 tokens and every object document, every single byte 0x00-0xFF inserted at every offset of 3 object documents, line-ending rewrites (CRLF, CR, LF CR, CR CR LF, TAB), byte-order marks, files of 4095..1 MiB+1 bytes, plus the unreadable-path menu. Non-trivial = distinct input that reaches a parser state machine (contains the root bracket the entry point looks for) and is longer than 2 bytes.", L, L-1, c04Openers[1:], depthMax, len(c04Bad)))
 	c.Assume("a call that does not return within 90 s on an input of < 1 MB is reported as non-termination", "nesting deeper than the sweep is limited by the goroutine stack, not by the library")
 	wd := newWatch(c, "total/non-termination")
 	defer wd.close()
@@ -199,7 +199,23 @@ func runC04(c *ev.Ctx) {
 		ok := true
 		spec.NewEnum(docLeaves, docKeys).Containers(5, 3, func(v *spec.V) bool { ok = emit(v); return ok })
 		if ok {
-			spec.NewEnum(c04Leaves2, c04Keys2).Containers(4, 3, emit)
+			spec.NewEnum(c04Leaves2, c04Keys2).Containers(4, 3, func(v *spec.V) bool { ok = emit(v); return ok })
+		}
+		if ok {
+			// strings and keys holding non-ASCII characters whose code point has the LOW BYTE of a structural character
+			// (quote 0x22, backslash 0x5C, brackets 0x5B/0x5D/0x7B/0x7D, comma 0x2C, colon 0x3A), next to real brackets:
+			// a scanner that classifies a rune by its low byte ends the string there and takes what follows as structure
+			var lv []*spec.V
+			var ks []string
+			for _, low := range []rune{0x22, 0x5C, 0x5D, 0x7D, 0x2C} {
+				for _, hi := range []rune{0x0100, 0x0400, 0x4E00, 0x1F600} {
+					r := string(hi + low)
+					lv = append(lv, spec.S(r+"]"), spec.S(r+"}\","+r))
+				}
+				ks = append(ks, string(rune(0x0400)+low)+"}", string(rune(0x1F600)+low)+"]")
+			}
+			lv = append(lv, spec.I(1))
+			spec.NewEnum(lv, ks[:4]).Containers(3, 2, emit)
 		}
 	}
 	par.Stream(c.Workers, stop, docs, func(w int, v *spec.V) {
